@@ -278,4 +278,5 @@ macro_rules! arr_elem {
 }
 arr_elem!(3);
 arr_elem!(12);
+arr_elem!(8192);
 arr_elem!(24);
